@@ -347,6 +347,15 @@ def lifetime(repo: Repo, chk: Check) -> None:
                 if m is None:
                     continue
                 classes = [ast.unparse(e) for e in (m["c"].elts if isinstance(m["c"], ast.Tuple) else [m["c"]])]
+                # a condition on the individual result narrows which results of the cast are followed: an unrealized
+                # cast can turn the buffer into any type, so every one of its results is a cast of the buffer
+                rvars = {n.id for l in lp if norm.match(T("$u.operation.results"), l.iter) is not None for n in ast.walk(l.target) if isinstance(n, ast.Name)}
+                narrowed = [ast.unparse(x.expr) for x in y.facts if x.kind in ("atom", "not") and rvars & norm.free_names(x.expr)]
+                if over_results and narrowed and any(c.endswith("UnrealizedConversionCastOp") for c in classes):
+                    chk.bad("C11.lifetime", f"{f.key}:cast-results", y.where(),
+                            f"the results of an unrealized conversion cast of the buffer are only followed when {narrowed}: a cast to another type "
+                            "that is used later no longer extends the buffer's lifetime")
+                    continue
                 if over_results and any(c.endswith("UnrealizedConversionCastOp") for c in classes):
                     casts_ok = True
                 if over_results and any(c.endswith("SubviewOp") for c in classes):
